@@ -108,6 +108,8 @@ pub struct Cfg
     pub pct_res_t: u64,
     /// percent of events whose payload owns a signal clone (profiles with signals)
     pub pct_payload_sig: u64,
+    /// exclusive bodies with the nested-collection pattern (profiles with signals)
+    pub pct_nested_gc: u64,
 }
 
 fn wset(pairs: &[(K, u32)]) -> [u32; NK] { let mut w = [0u32; NK]; for (k, v) in pairs { w[*k as usize] = *v; } w }
@@ -158,6 +160,7 @@ pub fn base_cfg() -> Cfg
         pct_app_setup: 2,
         pct_res_t: 10,
         pct_payload_sig: 12,
+        pct_nested_gc: 4,
     }
 }
 
@@ -288,6 +291,27 @@ pub fn profile(name: &str) -> Cfg
             c.pct_direct_step = 85;
             c.pct_update_step = 8;
             c.steps = (4, 16);
+            c.slots = (3, 4);
+        }
+        "C10T" =>
+        {
+            // signals released and collections requested *inside* reaction trees: by commands that exclusive bodies and
+            // `DeferredWorld` systems leave on the world's queue (applied by whatever flushes next -- also the flush inside the
+            // despawn an enclosing collection is performing), by payloads, by reactors that die mid-tree
+            c.name = "C10T";
+            c.signals = true;
+            c.d_tree[D::Sig as usize] = 22;
+            c.d_tree[D::Gc as usize] = 12;
+            c.d_tree[D::Run as usize] = 6;
+            bump(&mut c, &[(K::Direct, 16), (K::Now, 10), (K::Run, 6), (K::SysEvent, 4)]);
+            c.pct_dw = 25;
+            c.pct_excl = 35;
+            c.pct_payload_sig = 30;
+            c.pct_nested_gc = 30;
+            c.hierarchy_pct = 40;
+            c.d_driver = dset(&[(D::Sig, 30), (D::Gc, 4), (D::Run, 14), (D::SysEvent, 6), (D::Broadcast, 5), (D::Spawn, 3), (D::Reparent, 3)]);
+            c.pct_direct_step = 70;
+            c.steps = (4, 12);
             c.slots = (3, 4);
         }
         "C11" | "C18" =>
@@ -483,6 +507,18 @@ impl<'a> G<'a>
                 else { let n = self.insts.len() as u64; Some(Op::Revoke(self.r.below(n) as Inst)) };
                 if let Some(f) = first { let at = self.r.below(ops.len() as u64 + 1) as usize; ops.insert(at, Op::Now(w)); ops.insert(at, f); }
             }
+            // an exclusive body that drops a signal, leaves "drop another signal; collect" on the world's queue and then starts a
+            // system command directly: the runner's collection takes the first entity and the flush inside its despawn applies
+            // the queued pair -- a collection nested inside a collection
+            if self.c.signals && matches!(flavour, Flavour::Exclusive | Flavour::ExclusiveWarn) && self.r.chance(self.c.pct_nested_gc)
+            {
+                let k1 = self.r.below(4) as u8;
+                let k2 = (k1 + 1 + self.r.below(3) as u8) % 4;
+                let t = self.target(me);
+                let at = self.r.below(ops.len() as u64 + 1) as usize;
+                let pat = [Op::Now(WOp::SigDrop(k1)), Op::Direct(WOp::SigDrop(k2)), Op::Direct(WOp::Gc), Op::Now(WOp::Run(t))];
+                for (i, o) in pat.into_iter().enumerate() { ops.insert(at + i, o); }
+            }
             v.push(ops);
         }
         v.push(Vec::new());
@@ -501,7 +537,7 @@ impl<'a> G<'a>
             x if x == D::Remove as usize => WOp::Remove(s, self.comp()),
             x if x == D::TriggerMutation as usize => WOp::TriggerMutation(s, self.comp()),
             x if x == D::Insert as usize => WOp::Insert(s, self.comp(), self.val()),
-            x if x == D::Gc as usize => WOp::Gc,
+            x if x == D::Gc as usize => { if driver && self.r.chance(12) { WOp::ReactorBulk(self.r.range(30, 140) as u16, self.r.below(2) as u8) } else { WOp::Gc } }
             x if x == D::Poll as usize => WOp::Poll,
             x if x == D::Flush as usize => WOp::Flush,
             x if x == D::KillInst as usize => { let t = self.target(me); if self.insts.get(t as usize).map(|d| d.rc).unwrap_or(false) && self.r.chance(65) { WOp::DropInstSig(t) } else { WOp::KillInst(t) } }
